@@ -90,6 +90,7 @@ def run_shard(prop, tier, seed, index, n, out):
     contracts.report(obs)
     d = obs.dump()
     d['reach'] = reach.counts()
+    d['linecov'] = reach.line_coverage()
     d['contracts'] = contracts.stats()
     tmp = out + '.tmp'
     with open(tmp, 'w') as fh:
@@ -104,6 +105,7 @@ def merge(dumps):
         'violations': [], 'violation_count': 0, 'mech_counts': {},
         'samples': [], 'counters': {}, 'sets': {}, 'inconclusive': [],
         'exhaustive': None, 'notes': [], 'reach': {}, 'contracts': {},
+        'linecov': {},
         'shard_wall_s': [],
     }
     ex = []
@@ -132,6 +134,10 @@ def merge(dumps):
         ex.append(d['exhaustive'])
         for k, v in d.get('reach', {}).items():
             m['reach'][k] = m['reach'].get(k, 0) + v
+        for k, v in d.get('linecov', {}).items():
+            c = m['linecov'].setdefault(k, {'all': set(), 'hit': set()})
+            c['all'].update(v['all'])
+            c['hit'].update(v['hit'])
         for k, v in d.get('contracts', {}).items():
             c = m['contracts'].setdefault(k, {'evaluated': 0, 'failed': 0})
             c['evaluated'] += v['evaluated']
@@ -167,6 +173,13 @@ def write_evidence(prop, mod, tier, seed, m, wall, n_unknown, known_hits):
         'monitors': m['contracts'],
         'reach': dict(sorted(m['reach'].items(),
                              key=lambda kv: -kv[1])[:60]),
+        'line_coverage': {
+            k: '%d/%d' % (len(v['hit']), len(v['all']))
+            for k, v in sorted(m['linecov'].items())},
+        'lines_never_executed(relative to def)': {
+            k: sorted(v['all'] - v['hit'])
+            for k, v in sorted(m['linecov'].items())
+            if v['all'] - v['hit']},
         'counters': dict(sorted(m['counters'].items())),
         'observed_sets': {k: (sorted(v, key=repr)[:60] if len(v) <= 60
                               else {'n': len(v),
